@@ -209,7 +209,7 @@ ENGINES.update({
 })
 
 E1_ASSUME = [
-    "lcdb's threads (foreground bodies and its own background thread) run as fibers; a switch happens only at a scheduling point: before every mutex acquisition, at every blocking wait/exit/join, after thread creation, at the hooked unlocked flag loads of the compaction loop (H3), at sleeps, and (io=1) before every journalled system call",
+    "lcdb's threads (foreground bodies and its own background thread) run as fibers; a switch happens only at a scheduling point: before every mutex acquisition, at every blocking wait/exit/join, after thread creation, at the hooked unlocked flag loads of the compaction loop (H3), before every lock-free publication of a memtable entry (H4: release store of a skip-list link), at sleeps, and (io=1) before every journalled system call",
     "executions are sequentially consistent; condition variables wake only on signal/broadcast (the adversary that exposes a lost wake-up); with spurious=1 a single spurious wake-up is an additional deviation",
     "coverage statement: ALL schedules that differ from either of two deterministic base schedulers (lowest-id-first, background-thread-first) by at most `bound` deviations (preemptions or non-default hand-overs), for each listed closed scenario of 2-4 foreground threads with 1-4 operations each on 2 colliding keys",
     "states = executions (each a distinct complete schedule of the implementation), transitions = scheduling points executed",
